@@ -29,6 +29,7 @@ func allChecks() []*Check {
 				{Pkg: "client", Func: "VerifSession", Sched: true, Quick: map[string]int{"N": 3, "SW": 1, "KINDS": 0, "TRACK": 1}, Thorough: map[string]int{"N": 3, "SW": 2, "KINDS": 0, "TRACK": 1}, Asserts: []string{"tracker-reflects-the-line-at-handler-entry", "tracker-not-ahead-while-fg-handler-runs"}},
 				{Pkg: "client", Func: "VerifSession", Sched: true, Quick: map[string]int{"N": 3, "SW": 1, "KINDS": 0, "TRACK": 1, "SCRIPT": 1}, Thorough: map[string]int{"N": 5, "SW": 1, "KINDS": 0, "TRACK": 1, "SCRIPT": 1}, Asserts: []string{"tracker-reflects-the-line-at-handler-entry", "tracker-not-ahead-while-fg-handler-runs"}, Note: "tracker-centred script: own JOIN, other JOIN, NICK, MODE +o, TOPIC; handlers read channel snapshots"},
 				{Pkg: "client", Func: "VerifSession", Sched: true, Quick: map[string]int{"N": 3, "SW": 1, "KINDS": 0, "TRACK": 1, "SCRIPT": 1, "FRAG": 1}, Thorough: map[string]int{"N": 4, "SW": 2, "KINDS": 0, "TRACK": 1, "SCRIPT": 1, "FRAG": 1}, Asserts: []string{"tracker-reflects-the-line-at-handler-entry", "fg-handlers-in-wire-order"}, Note: "the server hangs up mid-stream: the last line arrives without CR-LF, then EOF"},
+				{Pkg: "client", Func: "VerifSession", Sched: true, Quick: map[string]int{"N": 5, "SW": 1, "KINDS": 0, "TRACK": 1, "SCRIPT": 2, "TSEQ": 2}, Thorough: map[string]int{"N": 5, "SW": 1, "KINDS": 0, "TRACK": 1, "SCRIPT": 2}, Asserts: []string{"tracker-reflects-the-line-at-handler-entry", "tracker-not-ahead-while-fg-handler-runs"}, Note: "the server uses the IRCv3 batch form (BATCH +r, two tagged members, BATCH -r)"},
 				{Pkg: "client", Func: "VerifC05Internal", Asserts: []string{"state-handler-is-internal", "state-handler-not-in-user-sets"}},
 			},
 			Bounds:      map[string]string{"quick": "the C03 session (3 lines: 001 changing the nick, own JOIN creating the channel, another user's JOIN) with state tracking on: every foreground and background user handler checks at entry that the tracker reflects its line, and a foreground handler that yields mid-way checks that the next line is not applied yet; schedules within delay bound 1; a second, tracker-centred script (own JOIN, another user's JOIN, that user's NICK; thorough adds MODE +o and TOPIC) where the handlers read the channel snapshot and compute which line the tracker has reached; plus: every state handler is registered in the internal set only", "thorough": "3 lines with delay bound 2; tracker-centred script of 5 lines with delay bound 1"},
@@ -75,9 +76,9 @@ func allChecks() []*Check {
 				{Pkg: "client", Func: "VerifC07Reconnect", Sched: true, Quick: map[string]int{"CYCLES": 2, "SW": 1, "KINDS": 1}, Thorough: map[string]int{"CYCLES": 2, "SW": 2, "KINDS": 1}, Asserts: []string{"old-teardown-disconnects-new-connection", "new-connection-stays-up", "new-socket-not-closed-by-old-teardown", "registration-reaches-the-new-socket", "REGISTER-once-per-connection", "DISCONNECTED-once-per-ended-connection"}},
 				{Pkg: "client", Func: "VerifC07Wipe", Asserts: []string{"tracker-reset-on-connect", "tracker-is-just-the-client"}},
 			},
-			Bounds: map[string]string{"quick": "teardown (user Close from another goroutine / server EOF / context cancellation) behind a long-running foreground handler with 3 unprocessed lines (delay bound 1, flood control on/off, tracking on/off), with 70 unprocessed lines (> 2x the 32-slot queue; delay bound 1 so that select may pick the cancelled context while the queue is full), and with a handler emitting 70 lines to a stalled peer; 2 connect/disconnect cycles with the reconnect issued from the DISCONNECTED handler or from a goroutine it wakes (delay bound 1, preemption at mutex operations); tracker reset on connect",
+			Bounds: map[string]string{"quick": "teardown (user Close from another goroutine / server EOF / context cancellation with the peer stalled for good / Close called from inside a background handler) behind a long-running foreground handler with 3 unprocessed lines (delay bound 1, flood control on/off, tracking on/off), with 70 unprocessed lines (> 2x the 32-slot queue; delay bound 1 so that select may pick the cancelled context while the queue is full), and with a handler emitting 70 lines to a stalled peer; 2 connect/disconnect cycles with the reconnect issued from the DISCONNECTED handler or from a goroutine it wakes (delay bound 1, preemption at mutex operations); tracker reset on connect",
 				"thorough": "140-line backlogs, 3 cycles, delay bound 2"},
-			Outside:     []string{"wall-clock time (the claim is: no state in which the disconnect can make no progress, within the explored schedules)", "schedules beyond the delay bound", "Close called from a foreground/internal handler; sends after DISCONNECTED (as in the property)", "a peer that never reads again combined with context cancellation (a blocked socket write cannot observe the context)"},
+			Outside:     []string{"wall-clock time (the claim is: no state in which the disconnect can make no progress, within the explored schedules)", "schedules beyond the delay bound", "Close called from a foreground/internal handler; sends after DISCONNECTED (as in the property)"},
 			Stubs:       []string{"as C03; in-memory wire whose Write waits for tokens (stalled peer)"},
 			QuickBudget: 6 * time.Minute, ThorBudget: 60 * time.Minute,
 		},
